@@ -685,6 +685,14 @@ Fixpoint pairs_of (l : list json) (acc : pairdict) : res pairdict :=
     the names are the SORTED set of all names in the keys; cell (n1, n2) is [dists.get((n1, n2), dists.get((n2, n1), 0))]
     (so the diagonal, which is not written, reads back as 0.0); an empty dict raises IndexError ([list(data)[0]]).
     The [float] cast of the array is the identity on what the encoder writes. *)
+(** one cell of the rebuilt matrix: the STORED value of (n1, n2) when the pairs dict has one; the mirror (n2, n1)
+    only when it has none; 0.0 when it has neither *)
+Definition dm_cell (T : pairdict) (n1 n2 : list Z) : json :=
+  match pget T n1 n2 with
+  | Some v => v
+  | None => match pget T n2 n1 with Some v => v | None => JFloat float_zero end
+  end.
+
 Definition dmat_of_dict (d : dict) : res dmat :=
   match jget k_dists d with
   | Some (JArr l) =>
@@ -693,11 +701,7 @@ Definition dmat_of_dict (d : dict) : res dmat :=
       | [] => Err E_Index
       | _ =>
           let names := sort_names (flat_map (fun kv => [fst (fst kv); snd (fst kv)]) T) in
-          let cell n1 n2 := match pget T n1 n2 with
-                            | Some v => v
-                            | None => match pget T n2 n1 with Some v => v | None => JFloat float_zero end
-                            end in
-          Ok (mkDm names (map (fun n1 => map (cell n1) names) names)
+          Ok (mkDm names (map (fun n1 => map (dm_cell T n1) names) names)
                    (match jget k_invalid d with Some j => j | None => JNull end))
       end)
   | Some _ => Err E_Type
